@@ -14,4 +14,5 @@ var (
 	ErrNoMoreRewardsToClaim      = errors.Register(ModuleName, 8, "no more rewards to claim")
 	ErrInvalidProposalExists     = errors.Register(ModuleName, 9, "invalid proposal exists")
 	ErrEmptyWeightBeneficiary    = errors.Register(ModuleName, 10, "empty weight beneficiary not allowed")
+	ErrInvalidVoteQuorum         = errors.Register(ModuleName, 11, "vote quorum should be between 0 and 1")
 )
